@@ -59,7 +59,17 @@ Inductive op :=
 Inductive err := ENone | EReloadFailed.
 
 (* ---------- environment and state ---------- *)
-Record env := { plus : bool; ro : nat -> bool; ao : nat -> bool }.
+(* which of the proposed repairs the code under test contains (probed on the real code by the
+   harness on every run; all false = /repo as found):
+   fx_weights  (F15)  AddOrUpdateVirtualServer no longer calls EnableReloads() for weight updates
+   fx_uab      (F16c) updateAllConfigsOnBatch is reset when a batch ends
+   fx_batchrep (F16b) a failed ReloadForBatchUpdates is reported on the resources
+   fx_endprep  (F16d) syncEndpointSlices reports a failed update on the resources using the service *)
+Record fixes := { fx_weights : bool; fx_uab : bool; fx_batchrep : bool; fx_endprep : bool }.
+Definition no_fixes : fixes := {| fx_weights := false; fx_uab := false; fx_batchrep := false; fx_endprep := false |}.
+Definition all_fixes : fixes := {| fx_weights := true; fx_uab := true; fx_batchrep := true; fx_endprep := true |}.
+
+Record env := { plus : bool; ro : nat -> bool; ao : nat -> bool; fx : fixes }.
 
 Record cst := {
   enabled : bool;          (* isReloadsEnabled *)
@@ -175,7 +185,7 @@ Definition step (e : env) (s : cst) (o : op) : cst * out :=
       let '(s1, l1) := do_write (fk_of (r_kind r)) (r_name r) (r_ver r) s in
       (* AddOrUpdateVirtualServer: if len(weightUpdates) > 0 { cnf.EnableReloads() } *)
       let s2 := match r_kind r with
-                | KVS => if (0 <? r_weights r)%nat then set_enabled true s1 else s1
+                | KVS => if (0 <? r_weights r)%nat && negb (fx_weights (fx e)) then set_enabled true s1 else s1
                 | _ => s1
                 end in
       finish_reload e false s2 l1
@@ -265,6 +275,8 @@ Definition skips (o : op) : bool :=
   match o with ODelete KTS _ _ => false | ODelete _ _ sk => sk | OReloadForBatch f => negb f | _ => false end.
 Definition has_weights (o : op) : bool :=
   match o with OAdd r => match r_kind r with KVS => (0 <? r_weights r)%nat | _ => false end | _ => false end.
+(* the operation switches reloads on by itself (F15; never once repaired) *)
+Definition forces_enable (e : env) (o : op) : bool := has_weights o && negb (fx_weights (fx e)).
 (* every resource of an endpoints operation has something to push *)
 Definition pushes (r : res) : bool :=
   match r_apis r with (_ :: _) :: _ => true | _ => false end.
@@ -305,8 +317,8 @@ Record sout := {
 
 (* syncEndpointSlices only logs the error of UpdateEndpoints*; every other handler reports the
    error of its operation on the resource (event + status) when the resource still exists *)
-Definition reports (t : task) : bool :=
-  match t_kind t with TEndpointSlice => false | TConfigMap => t_all_reports t | TOther => t_reports t end.
+Definition reports (e : env) (t : task) : bool :=
+  match t_kind t with TEndpointSlice => fx_endprep (fx e) | TConfigMap => t_all_reports t | TOther => t_reports t end.
 
 (* handler work: every operation's error is reported by the handler on the resources it concerns *)
 Fixpoint run_work (e : env) (s : cst) (os : list op) : cst * list ev * bool :=
@@ -358,17 +370,19 @@ Definition sync (e : env) (c : ctl) (t : task) : ctl * sout :=
   let ebr1 := ebr c || (batch1 && negb (is_endp_task k)) in
   let uab1 := uab c || (is_cm_task k && batch1) in
   let '(cfg2, l2, f2) := handler e t (ready c && negb batch1) cfg1 in
-  let rep2 := f2 && reports t in
-  let sw2 := f2 && negb (reports t) in
+  let rep2 := f2 && reports e t in
+  let sw2 := f2 && negb (reports e t) in
   let ebr2 := ebr1 || (is_endp_task k && batch1 && t_found t) in
   let fin := negb (ready c) && Nat.eqb (t_qlen t) 0 in
   let '(cfg3, l3, f3) := phase_fin e t fin cfg2 in
   let ready3 := ready c || fin in
   let bend := batch1 && Nat.eqb (t_qlen t) 0 in
-  let '(cfg4, l4, f4, sw4) := phase_end e t bend uab1 ebr2 cfg3 in
+  let '(cfg4, l4, f4, f5) := phase_end e t bend uab1 ebr2 cfg3 in
   let ar := t_all_reports t in
-  ({| ready := ready3; batch := batch1 && negb bend; ebr := ebr2 && negb bend; uab := uab1; cfg := cfg4 |},
-   {| slog := l1 ++ l2 ++ l3 ++ l4; reported := rep2 || (f3 || f4) && ar; swallowed := sw2 || (f3 || f4) && negb ar || sw4 |}).
+  (* a failed ReloadForBatchUpdates: only logged, or (F16b repaired) reported on every resource *)
+  let br := fx_batchrep (fx e) && negb (match t_all t with [] => true | _ => false end) in
+  ({| ready := ready3; batch := batch1 && negb bend; ebr := ebr2 && negb bend; uab := uab1 && negb (bend && fx_uab (fx e)); cfg := cfg4 |},
+   {| slog := l1 ++ l2 ++ l3 ++ l4; reported := rep2 || (f3 || f4) && ar || f5 && br; swallowed := sw2 || (f3 || f4) && negb ar || f5 && negb br |}).
 
 Fixpoint run_sync (e : env) (c : ctl) (ts : list task) : ctl * list sout :=
   match ts with
